@@ -1,12 +1,14 @@
 #!/bin/bash
 # usage: benign_run.sh [<id>...]: applies each behaviour-preserving change to /repo and runs the quick checks of the
 # properties it touches; every check must exit 0 (an exit 1 is a FALSE ALARM, an exit 2 an inconclusive run)
-cd /verif
+cd "$(dirname "$0")/.."
+V=$(pwd)
+R=${VERIF_REPO:-/repo}
 [ $# -eq 0 ] && set -- $(ls benign | grep '^B')
 for s in "$@"; do
   d=benign/$s
-  git -C /repo diff --quiet || { echo "/repo is dirty"; exit 3; }
-  git -C /repo apply /verif/$d/patch.diff || { echo "$s: patch does not apply"; continue; }
+  git -C $R diff --quiet || { echo "/repo is dirty"; exit 3; }
+  git -C $R apply $V/$d/patch.diff || { echo "$s: patch does not apply"; continue; }
   for p in $(python3-vt -c "import json; print(' '.join(json.load(open('$d/meta.json'))['preserves']))"); do
     t0=$(date +%s); timeout 3000 ./check $p --tier quick > /tmp/benign_${s}_$p.log 2>&1; rc=$?
     line=$(grep -A1 '^VIOLATION\|^INCONCLUSIVE' /tmp/benign_${s}_$p.log | head -2 | tr '\n' ' ' | cut -c1-300)
@@ -18,6 +20,6 @@ json.dump(m, open(f, 'w'), indent=1)
 PY
     echo "$s $p rc=$rc ${line}"
   done
-  git -C /repo checkout -- .
+  git -C $R checkout -- .
 done
-git -C /verif checkout -- evidence 2>/dev/null
+git -C $V checkout -- evidence 2>/dev/null
